@@ -1,5 +1,1651 @@
-//! C08 - monitor not built yet.
+//! C08 - Wrapper writes are atomic under crashes; garbage collection is safe.
+//!
+//! Two monitors over the real `MetaStore` / `EncryptedStore` code (DESIGN.md C08):
+//!
+//! 1. **Crash enumeration.** A `RecStore` sits below the wrapper and records every inner
+//!    mutation of a generated operation sequence (put / multipart / copy / rename / delete /
+//!    collect_garbage over 4 keys, some seeded in the legacy pre-0.10 layout, some operations
+//!    with an injected backend failure so that real garbage exists). For EVERY prefix k of the
+//!    landed-mutation log the backend state is rebuilt (`materialize(k)` = power loss after the
+//!    k-th inner mutation), a fresh wrapper (cold cache) is put on top and every key is read
+//!    through get / head / the three listings, then `collect_garbage` runs twice.
+//! 2. **GC under in-process concurrency.** `RecStore` gate mode + `ManualExec`: one or two
+//!    writers/copiers are parked between payload write and pointer switch, the wall clock is
+//!    advanced past the parked generation's millisecond (precondition, not a verdict), then
+//!    `collect_garbage` is interleaved with them (DFS over the choice tree within a budget,
+//!    seeded random schedules beyond it).
+//!
+//! The oracles are the property's: a key reads, in full, the value before or after the
+//! operation in flight; readable <=> listed; GC changes no readable byte; no commit point ever
+//! refers to a missing payload.
+
+use aes_gcm::aead::KeyInit;
+use aes_gcm::{AeadInOut, Aes256Gcm, Key, Nonce};
+use anda_object_store::{EncryptedStore, EncryptedStoreBuilder, MetaStore, MetaStoreBuilder};
+use cbor2::Value as Cbor;
+use futures::TryStreamExt;
+use object_store::memory::InMemory;
+use object_store::path::Path;
+use object_store::{
+    CopyMode, CopyOptions, Error as OsError, ObjectStore, ObjectStoreExt, PutMode, PutOptions,
+    PutPayload, RenameOptions, RenameTargetMode,
+};
+use std::collections::{BTreeMap, BTreeSet};
+use std::sync::Arc;
+use std::time::{Duration, Instant};
+use vcore::manual::{Chooser, DfsChooser, ManualExec};
+use vcore::recstore::{Fault, LogItem, Mutation, RecStore, dump_store};
+use vcore::run::block_on;
+use vcore::{Rng, Run, Stats, json};
+
+type Dyn = Arc<dyn ObjectStore>;
+type Model = Vec<Option<Vec<u8>>>;
+
+const SECRET: [u8; 32] = [0x5a; 32];
+const KEYS: [&str; 4] = ["a", "a/b", "d/e", "f"];
+
+// ---------------------------------------------------------------------------------------------
+// the two wrappers behind one handle
+
+#[derive(Clone, Copy, Debug)]
+struct Cfg {
+    enc: bool,
+    chunk: u64,
+    strict: bool,
+}
+
+impl Cfg {
+    fn name(&self) -> &'static str {
+        if self.enc { "enc" } else { "meta" }
+    }
+    fn gen_cfg(rng: &mut Rng, enc: bool, legacy: bool) -> Cfg {
+        Cfg {
+            enc,
+            chunk: *rng.pick(&[1u64, 4, 7, 16, 256 * 1024]),
+            // strict metadata authentication rejects genuine pre-auth legacy documents
+            strict: enc && !legacy && rng.bool(),
+        }
+    }
+}
+
+#[derive(Clone)]
+enum Gc {
+    Meta(MetaStore<Dyn>),
+    Enc(EncryptedStore<Dyn>),
+}
+
+#[derive(Clone)]
+struct Wrap {
+    os: Dyn,
+    gc: Gc,
+}
+
+impl Wrap {
+    fn new(cfg: &Cfg, inner: Dyn) -> Wrap {
+        if cfg.enc {
+            let mut b =
+                EncryptedStoreBuilder::with_secret(inner, 1000, SECRET).with_chunk_size(cfg.chunk);
+            if cfg.strict {
+                b = b.with_strict_metadata_auth();
+            }
+            let s = b.build();
+            Wrap { os: Arc::new(s.clone()), gc: Gc::Enc(s) }
+        } else {
+            let s = MetaStoreBuilder::new(inner, 1000).build();
+            Wrap { os: Arc::new(s.clone()), gc: Gc::Meta(s) }
+        }
+    }
+    async fn collect_garbage(&self) -> object_store::Result<usize> {
+        match &self.gc {
+            Gc::Meta(s) => s.collect_garbage().await,
+            Gc::Enc(s) => s.collect_garbage().await,
+        }
+    }
+}
+
+fn err_name(e: &OsError) -> &'static str {
+    match e {
+        OsError::NotFound { .. } => "NotFound",
+        OsError::AlreadyExists { .. } => "AlreadyExists",
+        OsError::Precondition { .. } => "Precondition",
+        OsError::NotModified { .. } => "NotModified",
+        OsError::NotSupported { .. } => "NotSupported",
+        OsError::Generic { .. } => "Generic",
+        _ => "Other",
+    }
+}
+
+fn unix_ms() -> u64 {
+    std::time::SystemTime::now()
+        .duration_since(std::time::UNIX_EPOCH)
+        .map(|d| d.as_millis() as u64)
+        .unwrap_or(0)
+}
+
+/// Scenario precondition: the wall clock is at least 2 ms past `ts` (the collector skips
+/// generations minted at or after its start millisecond). Never part of a verdict.
+fn wait_past(ts: u64) -> bool {
+    let t0 = Instant::now();
+    while unix_ms() < ts + 2 {
+        if t0.elapsed() > Duration::from_secs(5) {
+            return false;
+        }
+        std::thread::sleep(Duration::from_micros(250));
+    }
+    true
+}
+
+fn show(v: &Option<Vec<u8>>) -> String {
+    match v {
+        None => "absent".into(),
+        Some(b) => {
+            let hex: String = b.iter().take(8).map(|x| format!("{x:02x}")).collect();
+            format!("{}B:{hex}", b.len())
+        }
+    }
+}
+
+// ---------------------------------------------------------------------------------------------
+// legacy (pre-0.10) layout, written directly into the inner store as the crate's tests do
+
+fn cbor_bytes(doc: &Cbor) -> Vec<u8> {
+    let mut buf = vec![];
+    cbor2::to_writer(doc, &mut buf).expect("cbor encode");
+    buf
+}
+
+fn opt_text(v: Option<String>) -> Cbor {
+    v.map(Cbor::from).unwrap_or(Cbor::Null)
+}
+
+/// `data/<key>` + generation-less `{s,e,o,v}` document (MetaStore < 0.10).
+async fn seed_legacy_meta(store: &dyn ObjectStore, key: &str, data: &[u8]) {
+    let put = store
+        .put(&Path::from(format!("data/{key}")), PutPayload::from(data.to_vec()))
+        .await
+        .expect("seed legacy payload");
+    let doc = Cbor::Map(vec![
+        (Cbor::from("s"), Cbor::from(data.len() as u64)),
+        // the pre-0.10 ETag was a content hash; it is an opaque token for every reader
+        (Cbor::from("e"), Cbor::from(format!("legacy-{:016x}", vcore::fnv(data)))),
+        (Cbor::from("o"), opt_text(put.e_tag)),
+        (Cbor::from("v"), opt_text(put.version)),
+    ]);
+    store
+        .put(&Path::from(format!("meta/{key}")), cbor_bytes(&doc).into())
+        .await
+        .expect("seed legacy metadata");
+}
+
+/// Documented nonce derivation (docs/anda_object_store.md 4.3).
+fn derive_nonce(base: &[u8; 12], idx: u64) -> [u8; 12] {
+    let mut n = *base;
+    let mut ctr = [0u8; 8];
+    ctr.copy_from_slice(&n[4..12]);
+    let c = u64::from_le_bytes(ctr).wrapping_add(idx);
+    n[4..12].copy_from_slice(&c.to_le_bytes());
+    n
+}
+
+/// Pre-auth legacy EncryptedStore object: ciphertext (empty chunk AAD) at `data/<key>`,
+/// `{s,e,o,v,n,t,c}` document without authentication fields, AAD version or generation.
+async fn seed_legacy_enc(store: &dyn ObjectStore, key: &str, data: &[u8], chunk: u64, base: [u8; 12]) {
+    let cipher = Aes256Gcm::new(&Key::<Aes256Gcm>::from(SECRET));
+    let mut ct = data.to_vec();
+    let mut tags = vec![];
+    for (i, ch) in ct.chunks_mut(chunk.max(1) as usize).enumerate() {
+        let nonce = derive_nonce(&base, i as u64);
+        let tag = cipher
+            .encrypt_inout_detached(&Nonce::from(nonce), &[], ch.into())
+            .expect("legacy chunk encryption");
+        let tag: [u8; 16] = tag.into();
+        tags.push(Cbor::from(tag.to_vec()));
+    }
+    let etag = format!("legacy-{:016x}", vcore::fnv(&ct));
+    let put = store
+        .put(&Path::from(format!("data/{key}")), PutPayload::from(ct))
+        .await
+        .expect("seed legacy ciphertext");
+    let doc = Cbor::Map(vec![
+        (Cbor::from("s"), Cbor::from(data.len() as u64)),
+        (Cbor::from("e"), Cbor::from(etag)),
+        (Cbor::from("o"), opt_text(put.e_tag)),
+        (Cbor::from("v"), opt_text(put.version)),
+        (Cbor::from("n"), Cbor::from(base.to_vec())),
+        (Cbor::from("t"), Cbor::Array(tags)),
+        (Cbor::from("c"), Cbor::from(chunk.max(1))),
+    ]);
+    store
+        .put(&Path::from(format!("meta/{key}")), cbor_bytes(&doc).into())
+        .await
+        .expect("seed legacy metadata");
+}
+
+async fn seed_legacy(cfg: &Cfg, store: &dyn ObjectStore, key: &str, data: &[u8], rng: &mut Rng) {
+    if cfg.enc {
+        let mut base = [0u8; 12];
+        base.copy_from_slice(&rng.bytes(12));
+        // a legacy object may have been written with another chunk size than the store's
+        let chunk = *rng.pick(&[cfg.chunk.min(64), 3, 16]);
+        seed_legacy_enc(store, key, data, chunk, base).await;
+    } else {
+        seed_legacy_meta(store, key, data).await;
+    }
+}
+
+/// Plants an unreferenced generation object older than any collection floor.
+async fn plant_stale_generation(store: &dyn ObjectStore, key: &str, rng: &mut Rng) {
+    let ts = unix_ms().saturating_sub(60_000 + rng.below(1000));
+    let salt = rng.next_u64() as u32;
+    let n = rng.usize(20);
+    store
+        .put(
+            &Path::from(format!("gen/{key}/{ts:016x}-{salt:08x}")),
+            PutPayload::from(rng.bytes(n)),
+        )
+        .await
+        .expect("plant stale generation");
+}
+
+// ---------------------------------------------------------------------------------------------
+// inner-store inspection without wrapper types
+
+/// Payload path a metadata document points at, read generically from the CBOR map.
+fn pointer_of(key: &str, doc: &[u8]) -> Result<String, String> {
+    let v: Cbor = cbor2::from_slice(doc).map_err(|e| format!("undecodable metadata: {e:?}"))?;
+    let Cbor::Map(m) = v else {
+        return Err("metadata is not a map".into());
+    };
+    for (k, v) in &m {
+        if k.as_text() == Some("g") {
+            return match v {
+                Cbor::Text(g) => Ok(format!("gen/{key}/{g}")),
+                Cbor::Null => Ok(format!("data/{key}")),
+                _ => Err("generation field is not text".into()),
+            };
+        }
+    }
+    Ok(format!("data/{key}"))
+}
+
+struct Inspect {
+    dangling: Vec<String>,
+    payload_objects: usize,
+    meta_docs: usize,
+}
+
+/// Every `meta/` document must point at an existing payload object.
+async fn inspect(inner: &dyn ObjectStore) -> Inspect {
+    let dump = dump_store(inner).await;
+    let paths: BTreeSet<&str> = dump.iter().map(|(p, _)| p.as_str()).collect();
+    let mut out = Inspect { dangling: vec![], payload_objects: 0, meta_docs: 0 };
+    for (p, b) in &dump {
+        if let Some(key) = p.strip_prefix("meta/") {
+            out.meta_docs += 1;
+            match pointer_of(key, b) {
+                Ok(target) => {
+                    if !paths.contains(target.as_str()) {
+                        out.dangling.push(format!("{p} -> {target} (missing)"));
+                    }
+                }
+                Err(e) => out.dangling.push(format!("{p}: {e}")),
+            }
+        } else if p.starts_with("gen/") || p.starts_with("data/") {
+            out.payload_objects += 1;
+        }
+    }
+    out
+}
+
+fn generation_ts(path: &str) -> Option<u64> {
+    let last = path.rsplit('/').next()?;
+    let (ts, salt) = last.split_once('-')?;
+    if ts.len() != 16 || salt.len() != 8 {
+        return None;
+    }
+    u64::from_str_radix(ts, 16).ok()
+}
+
+// ---------------------------------------------------------------------------------------------
+// reading one key through every read API
+
+#[derive(Clone, Debug, PartialEq)]
+enum Read {
+    Absent,
+    Bytes(Vec<u8>),
+    Failed(String),
+}
+
+impl Read {
+    fn as_model(&self) -> Option<Option<Vec<u8>>> {
+        match self {
+            Read::Absent => Some(None),
+            Read::Bytes(b) => Some(Some(b.clone())),
+            Read::Failed(_) => None,
+        }
+    }
+    fn show(&self) -> String {
+        match self {
+            Read::Absent => "absent".into(),
+            Read::Bytes(b) => show(&Some(b.clone())),
+            Read::Failed(e) => format!("ERROR {e}"),
+        }
+    }
+}
+
+struct KeyView {
+    read: Read,
+    /// (size, e_tag) reported by get
+    get_meta: Option<(u64, Option<String>)>,
+    /// head: Ok(Some(size, etag)) / Ok(None) = NotFound / Err
+    head: Result<Option<(u64, Option<String>)>, String>,
+}
+
+async fn view_key(os: &dyn ObjectStore, key: &str) -> KeyView {
+    let p = Path::from(key);
+    let (read, get_meta) = match os.get(&p).await {
+        Err(OsError::NotFound { .. }) => (Read::Absent, None),
+        Err(e) => (Read::Failed(format!("get: {e}")), None),
+        Ok(r) => {
+            let m = (r.meta.size, r.meta.e_tag.clone());
+            match r.bytes().await {
+                Ok(b) => (Read::Bytes(b.to_vec()), Some(m)),
+                Err(e) => (Read::Failed(format!("get body: {e}")), Some(m)),
+            }
+        }
+    };
+    let head = match os.head(&p).await {
+        Ok(m) => Ok(Some((m.size, m.e_tag))),
+        Err(OsError::NotFound { .. }) => Ok(None),
+        Err(e) => Err(format!("{e}")),
+    };
+    KeyView { read, get_meta, head }
+}
+
+type Listing = BTreeMap<String, (u64, Option<String>)>;
+
+async fn list_all(os: &dyn ObjectStore) -> Result<Listing, String> {
+    let v: Vec<_> = os.list(None).try_collect().await.map_err(|e| format!("{e}"))?;
+    Ok(v.into_iter().map(|m| (m.location.to_string(), (m.size, m.e_tag))).collect())
+}
+
+async fn list_offset(os: &dyn ObjectStore) -> Result<Listing, String> {
+    // every generated key sorts after "0"
+    let v: Vec<_> = os
+        .list_with_offset(None, &Path::from("0"))
+        .try_collect()
+        .await
+        .map_err(|e| format!("{e}"))?;
+    Ok(v.into_iter().map(|m| (m.location.to_string(), (m.size, m.e_tag))).collect())
+}
+
+async fn list_delimited(os: &dyn ObjectStore) -> Result<Listing, String> {
+    let mut out = Listing::new();
+    let mut todo: Vec<Option<Path>> = vec![None];
+    let mut seen = BTreeSet::new();
+    while let Some(prefix) = todo.pop() {
+        let r = os.list_with_delimiter(prefix.as_ref()).await.map_err(|e| format!("{e}"))?;
+        for m in r.objects {
+            out.insert(m.location.to_string(), (m.size, m.e_tag));
+        }
+        for p in r.common_prefixes {
+            if seen.insert(p.to_string()) {
+                todo.push(Some(p));
+            }
+        }
+    }
+    Ok(out)
+}
+
+// ---------------------------------------------------------------------------------------------
+// monitor 1: operation sequences + crash enumeration
+
+#[derive(Clone, Copy, Debug, PartialEq)]
+enum PutFault {
+    None,
+    /// the pointer switch (second backend mutation of the put) fails: the put reports an error
+    /// and leaves an unreferenced generation behind
+    FailCommit,
+    /// the best-effort reclaim of the replaced payload fails: the put succeeds, the replaced
+    /// generation stays as garbage
+    LeakOld,
+}
+
+#[derive(Clone, Debug)]
+enum Op {
+    Put { key: usize, data: Vec<u8>, create: bool, fault: PutFault },
+    Multipart { key: usize, parts: Vec<Vec<u8>> },
+    Copy { from: usize, to: usize, create: bool },
+    Rename { from: usize, to: usize, create: bool },
+    Delete { key: usize },
+    Gc,
+}
+
+impl Op {
+    fn kind(&self) -> &'static str {
+        match self {
+            Op::Put { .. } => "put",
+            Op::Multipart { .. } => "multipart",
+            Op::Copy { .. } => "copy",
+            Op::Rename { .. } => "rename",
+            Op::Delete { .. } => "delete",
+            Op::Gc => "gc",
+        }
+    }
+    fn describe(&self) -> String {
+        match self {
+            Op::Put { key, data, create, fault } => format!(
+                "put {} {}B{}{}",
+                KEYS[*key],
+                data.len(),
+                if *create { " create" } else { "" },
+                match fault {
+                    PutFault::None => "",
+                    PutFault::FailCommit => " [backend fails the pointer switch]",
+                    PutFault::LeakOld => " [backend fails the reclaim delete]",
+                }
+            ),
+            Op::Multipart { key, parts } => format!(
+                "multipart {} parts={:?}",
+                KEYS[*key],
+                parts.iter().map(|p| p.len()).collect::<Vec<_>>()
+            ),
+            Op::Copy { from, to, create } => {
+                format!("copy {} -> {}{}", KEYS[*from], KEYS[*to], if *create { " create" } else { "" })
+            }
+            Op::Rename { from, to, create } => {
+                format!("rename {} -> {}{}", KEYS[*from], KEYS[*to], if *create { " create" } else { "" })
+            }
+            Op::Delete { key } => format!("delete {}", KEYS[*key]),
+            Op::Gc => "collect_garbage".into(),
+        }
+    }
+}
+
+fn gen_value(rng: &mut Rng, cfg: &Cfg, serial: &mut u32) -> Vec<u8> {
+    let c = cfg.chunk.min(16) as usize;
+    let n = match rng.below(8) {
+        0 => 0,
+        1 => 1,
+        2 => c.saturating_sub(1),
+        3 => c,
+        4 => c + 1,
+        5 => 2 * c + 3,
+        _ => 2 + rng.usize(40),
+    };
+    let mut v = rng.bytes(n);
+    // distinct values wherever the size allows, so that "old" and "new" are told apart
+    *serial += 1;
+    if n >= 2 {
+        v[0] = *serial as u8;
+        v[1] = (*serial >> 8) as u8;
+    }
+    v
+}
+
+fn split_parts(rng: &mut Rng, data: &[u8]) -> Vec<Vec<u8>> {
+    let mut parts = vec![];
+    let mut rest = data;
+    while !rest.is_empty() && parts.len() < 4 {
+        let n = 1 + rng.usize(rest.len());
+        parts.push(rest[..n].to_vec());
+        rest = &rest[n..];
+    }
+    if !rest.is_empty() {
+        parts.push(rest.to_vec());
+    }
+    if rng.chance(1, 5) {
+        parts.insert(rng.usize(parts.len() + 1), vec![]); // an empty part
+    }
+    parts
+}
+
+fn gen_op(rng: &mut Rng, cfg: &Cfg, model: &Model, serial: &mut u32) -> Op {
+    let present: Vec<usize> = (0..KEYS.len()).filter(|k| model[*k].is_some()).collect();
+    let any = |rng: &mut Rng| rng.usize(KEYS.len());
+    let existing = |rng: &mut Rng| {
+        if !present.is_empty() && rng.chance(5, 6) { *rng.pick(&present) } else { rng.usize(KEYS.len()) }
+    };
+    match rng.weighted(&[30, 12, 15, 15, 12, 9]) {
+        0 => {
+            let key = any(rng);
+            let fault = if rng.chance(1, 8) {
+                PutFault::FailCommit
+            } else if model[key].is_some() && rng.chance(1, 5) {
+                PutFault::LeakOld
+            } else {
+                PutFault::None
+            };
+            Op::Put {
+                key,
+                data: gen_value(rng, cfg, serial),
+                create: fault == PutFault::None && rng.chance(1, 8),
+                fault,
+            }
+        }
+        1 => {
+            let data = gen_value(rng, cfg, serial);
+            Op::Multipart { key: any(rng), parts: split_parts(rng, &data) }
+        }
+        2 => Op::Copy { from: existing(rng), to: any(rng), create: rng.chance(1, 6) },
+        3 => Op::Rename { from: existing(rng), to: any(rng), create: rng.chance(1, 6) },
+        4 => Op::Delete { key: existing(rng) },
+        _ => Op::Gc,
+    }
+}
+
+/// Sequential reference semantics: expected outcome class and effect on the key -> value map.
+fn model_apply(model: &mut Model, op: &Op) -> &'static str {
+    match op {
+        Op::Put { key, data, create, fault } => {
+            if *create && model[*key].is_some() {
+                return "AlreadyExists";
+            }
+            if *fault == PutFault::FailCommit {
+                return "Generic";
+            }
+            model[*key] = Some(data.clone());
+            "ok"
+        }
+        Op::Multipart { key, parts } => {
+            model[*key] = Some(parts.concat());
+            "ok"
+        }
+        Op::Copy { from, to, create } => {
+            if model[*from].is_none() {
+                return "NotFound";
+            }
+            if *create && model[*to].is_some() {
+                return "AlreadyExists";
+            }
+            model[*to] = model[*from].clone();
+            "ok"
+        }
+        Op::Rename { from, to, create } => {
+            if model[*from].is_none() {
+                return "NotFound";
+            }
+            if *create && model[*to].is_some() {
+                return "AlreadyExists";
+            }
+            if from != to {
+                model[*to] = model[*from].take();
+            }
+            "ok"
+        }
+        Op::Delete { key } => {
+            if model[*key].is_none() {
+                return "NotFound";
+            }
+            model[*key] = None;
+            "ok"
+        }
+        Op::Gc => "ok",
+    }
+}
+
+async fn do_multipart(os: &dyn ObjectStore, path: &Path, parts: &[Vec<u8>]) -> object_store::Result<()> {
+    let mut up = os.put_multipart(path).await?;
+    for p in parts {
+        up.put_part(PutPayload::from(p.clone())).await?;
+    }
+    up.complete().await?;
+    Ok(())
+}
+
+async fn apply_op(w: &Wrap, rec: &RecStore, op: &Op) -> (String, Option<usize>) {
+    let r: object_store::Result<Option<usize>> = match op {
+        Op::Put { key, data, create, fault } => {
+            match fault {
+                PutFault::None => {}
+                // mutation attempts of a put: payload, pointer switch, reclaim of the replaced payload
+                PutFault::FailCommit => rec.set_fault(Fault::FailBefore(rec.attempts() + 1)),
+                PutFault::LeakOld => rec.set_fault(Fault::FailBefore(rec.attempts() + 2)),
+            }
+            let opts = PutOptions {
+                mode: if *create { PutMode::Create } else { PutMode::Overwrite },
+                ..Default::default()
+            };
+            let r = w
+                .os
+                .put_opts(&Path::from(KEYS[*key]), PutPayload::from(data.clone()), opts)
+                .await
+                .map(|_| None);
+            rec.reset_faults();
+            r
+        }
+        Op::Multipart { key, parts } => {
+            do_multipart(w.os.as_ref(), &Path::from(KEYS[*key]), parts).await.map(|_| None)
+        }
+        Op::Copy { from, to, create } => w
+            .os
+            .copy_opts(
+                &Path::from(KEYS[*from]),
+                &Path::from(KEYS[*to]),
+                CopyOptions {
+                    mode: if *create { CopyMode::Create } else { CopyMode::Overwrite },
+                    ..Default::default()
+                },
+            )
+            .await
+            .map(|_| None),
+        Op::Rename { from, to, create } => w
+            .os
+            .rename_opts(
+                &Path::from(KEYS[*from]),
+                &Path::from(KEYS[*to]),
+                RenameOptions {
+                    target_mode: if *create { RenameTargetMode::Create } else { RenameTargetMode::Overwrite },
+                    ..Default::default()
+                },
+            )
+            .await
+            .map(|_| None),
+        Op::Delete { key } => w.os.delete(&Path::from(KEYS[*key])).await.map(|_| None),
+        Op::Gc => w.collect_garbage().await.map(Some),
+    };
+    match r {
+        Ok(n) => ("ok".into(), n),
+        Err(e) => (err_name(&e).to_string(), None),
+    }
+}
+
+struct OpRec {
+    op: Op,
+    lo: usize,
+    hi: usize,
+    before: Model,
+    after: Model,
+    result: String,
+    /// the operation writes or deletes a key that is in the legacy layout (migration path)
+    legacy_migration: bool,
+}
+
+struct CrashCtx<'a> {
+    cfg: Cfg,
+    case: u64,
+    ops: &'a [OpRec],
+    mutations: &'a [Mutation],
+    seed_end: usize,
+}
+
+impl CrashCtx<'_> {
+    fn detail(&self, k: usize, inflight: Option<usize>, what: serde_json::Value) -> serde_json::Value {
+        json!({
+            "wrapper": self.cfg.name(), "chunk_size": self.cfg.chunk, "strict": self.cfg.strict,
+            "case": self.case, "crash_after_mutation": k, "what": what,
+            "operation_in_flight": inflight.map(|i| self.ops[i].op.describe()),
+            "operations": self.ops.iter().map(|o| format!("[{}..{}] {} -> {}", o.lo, o.hi, o.op.describe(), o.result)).collect::<Vec<_>>(),
+            "inner_mutations": self.mutations.iter().enumerate().map(|(i, m)| format!("{i}{}: {}", if i < self.seed_end { " (seed)" } else { "" }, m.describe())).collect::<Vec<_>>(),
+        })
+    }
+}
+
+/// All checks on the backend state a power loss after the k-th inner mutation leaves behind.
+async fn check_crash_state(
+    ctx: &CrashCtx<'_>,
+    k: usize,
+    inner: Arc<InMemory>,
+    allowed: &[Vec<Option<Vec<u8>>>],
+    inflight: Option<usize>,
+    st: &mut Stats,
+) -> bool {
+    let cfg = ctx.cfg;
+    let w = cfg.name();
+    let mut ok = true;
+    macro_rules! fail {
+        ($sig:expr, $what:expr) => {{
+            st.violation(format!("C08/{w}/{}", $sig), ctx.detail(k, inflight, $what));
+            ok = false;
+        }};
+    }
+    st.count("crash_points");
+    let ins = inspect(inner.as_ref()).await;
+    st.count("oracle_pointer_resolves");
+    if !ins.dangling.is_empty() {
+        fail!("crash/commit_point_without_payload", json!({"dangling": ins.dangling}));
+    }
+
+    // cold instance
+    let cold = Wrap::new(&cfg, inner.clone());
+    let mut views = vec![];
+    for key in KEYS {
+        views.push(view_key(cold.os.as_ref(), key).await);
+    }
+    let mut readable = BTreeMap::new();
+    for (i, v) in views.iter().enumerate() {
+        st.count("oracle_old_or_new");
+        st.eval();
+        match v.read.as_model() {
+            None => fail!(
+                "crash/unreadable_key",
+                json!({"key": KEYS[i], "read": v.read.show(),
+                       "allowed": allowed[i].iter().map(show).collect::<Vec<_>>()})
+            ),
+            Some(got) => {
+                if !allowed[i].contains(&got) {
+                    fail!(
+                        "crash/neither_old_nor_new",
+                        json!({"key": KEYS[i], "read": show(&got),
+                               "allowed": allowed[i].iter().map(show).collect::<Vec<_>>()})
+                    );
+                } else if let Some(i_op) = inflight {
+                    let o = &ctx.ops[i_op];
+                    if o.before[i] != o.after[i] {
+                        st.count(if got == o.after[i] { "inflight_read_new" } else { "inflight_read_old" });
+                    }
+                }
+                if let Some(b) = &got {
+                    readable.insert(KEYS[i].to_string(), b.len() as u64);
+                }
+            }
+        }
+        // get, head agree
+        st.count("oracle_head_agrees");
+        match (&v.read, &v.head) {
+            (Read::Bytes(b), Ok(Some((size, tag)))) => {
+                let gm = v.get_meta.as_ref().unwrap();
+                if *size != b.len() as u64 || gm.0 != b.len() as u64 || &gm.1 != tag {
+                    fail!(
+                        "crash/head_disagrees_with_get",
+                        json!({"key": KEYS[i], "bytes": b.len(), "get_meta": format!("{gm:?}"),
+                               "head": format!("{:?}", v.head)})
+                    );
+                }
+            }
+            (Read::Absent, Ok(None)) => {}
+            (Read::Failed(_), _) => {}
+            _ => fail!(
+                "crash/head_disagrees_with_get",
+                json!({"key": KEYS[i], "read": v.read.show(), "head": format!("{:?}", v.head)})
+            ),
+        }
+    }
+    // the three listings: every listed key readable, every readable key listed, sizes equal
+    let listings = [
+        ("list", list_all(cold.os.as_ref()).await),
+        ("list_with_offset", list_offset(cold.os.as_ref()).await),
+        ("list_with_delimiter", list_delimited(cold.os.as_ref()).await),
+    ];
+    for (name, l) in &listings {
+        st.count("oracle_listing_agrees");
+        match l {
+            Err(e) => fail!("crash/listing_failed", json!({"listing": name, "error": e})),
+            Ok(l) => {
+                let listed: BTreeMap<String, u64> = l.iter().map(|(k, v)| (k.clone(), v.0)).collect();
+                let mut tags_ok = true;
+                for (i, v) in views.iter().enumerate() {
+                    if let (Some((_, t)), Some((_, lt))) = (&v.get_meta, l.get(KEYS[i])) {
+                        tags_ok &= t == lt;
+                    }
+                }
+                if listed != readable || !tags_ok {
+                    fail!(
+                        "crash/listing_disagrees_with_get",
+                        json!({"listing": name, "listed(key->size)": listed, "readable(key->size)": readable,
+                               "etags_equal": tags_ok})
+                    );
+                }
+            }
+        }
+    }
+    // rename never loses the object: once the source is gone the target holds it
+    if let Some(i_op) = inflight {
+        let o = &ctx.ops[i_op];
+        if let Op::Rename { from, to, .. } = &o.op {
+            if from != to && o.result == "ok" {
+                st.count("oracle_rename_pair");
+                let src = views[*from].read.as_model();
+                let tgt = views[*to].read.as_model();
+                if src == Some(None) && tgt.is_some() && tgt != Some(o.after[*to].clone()) {
+                    fail!(
+                        "crash/rename_lost_object",
+                        json!({"source": KEYS[*from], "target": KEYS[*to],
+                               "source_reads": "absent", "target_reads": views[*to].read.show(),
+                               "target_expected": show(&o.after[*to])})
+                    );
+                }
+                match (&src, &tgt) {
+                    (Some(Some(_)), Some(Some(_))) => st.count("rename_crash_both_present"),
+                    (Some(Some(_)), _) => st.count("rename_crash_source_only"),
+                    (_, Some(Some(_))) => st.count("rename_crash_target_only"),
+                    _ => {}
+                }
+            }
+        }
+    }
+    if !ok {
+        return false;
+    }
+
+    // garbage collection after the crash: same bytes, convergence, nothing left behind
+    let before: Vec<Read> = views.iter().map(|v| v.read.clone()).collect();
+    let n1 = match cold.collect_garbage().await {
+        Ok(n) => n,
+        Err(e) => {
+            st.violation(
+                format!("C08/{w}/crash/gc_failed"),
+                ctx.detail(k, inflight, json!({"error": format!("{e}"), "run": 1})),
+            );
+            return false;
+        }
+    };
+    st.count("gc_after_crash_runs");
+    if n1 > 0 {
+        st.count("gc_after_crash_deleted_gt0");
+        st.add("gc_after_crash_objects_deleted", n1 as u64);
+    }
+    let colder = Wrap::new(&cfg, inner.clone());
+    for (i, key) in KEYS.iter().enumerate() {
+        let warm = view_key(cold.os.as_ref(), key).await.read;
+        let fresh = view_key(colder.os.as_ref(), key).await.read;
+        st.count("oracle_same_bytes_after_gc");
+        if warm != before[i] || fresh != before[i] {
+            fail!(
+                "crash/gc_changed_readable_bytes",
+                json!({"key": key, "before_gc": before[i].show(), "after_gc_same_instance": warm.show(),
+                       "after_gc_fresh_instance": fresh.show(), "gc_deleted": n1})
+            );
+        }
+    }
+    match colder.collect_garbage().await {
+        Ok(0) => {}
+        Ok(n2) => fail!("crash/gc_not_convergent", json!({"first_run_deleted": n1, "second_run_deleted": n2})),
+        Err(e) => fail!("crash/gc_failed", json!({"error": format!("{e}"), "run": 2})),
+    }
+    st.count("oracle_gc_converges");
+    let after = inspect(inner.as_ref()).await;
+    if !after.dangling.is_empty() {
+        fail!("crash/gc_removed_referenced_payload", json!({"dangling": after.dangling, "gc_deleted": n1}));
+    }
+    // leak accounting: one payload object per live key once GC ran on eligible garbage
+    // (docs: "collect_garbage: mark-sweep reclamation of unreferenced payloads")
+    st.count("oracle_no_leak_after_gc");
+    let live = readable.len();
+    st.add("payload_objects_before_gc", ins.payload_objects as u64);
+    st.add("payload_objects_after_gc", after.payload_objects as u64);
+    st.add("live_keys_at_crash_points", live as u64);
+    if after.payload_objects != live || after.meta_docs != live {
+        fail!(
+            "crash/gc_leaves_unreferenced_payloads",
+            json!({"payload_objects_after_gc": after.payload_objects, "commit_points": after.meta_docs,
+                   "live_keys": live, "gc_deleted": n1})
+        );
+    }
+    ok
+}
+
+fn crash_case(case: u64, rng: &mut Rng, st: &mut Stats, enc: bool, n_ops: usize) {
+    block_on(crash_case_async(case, rng, st, enc, n_ops));
+}
+
+async fn crash_case_async(case: u64, rng: &mut Rng, st: &mut Stats, enc: bool, n_ops: usize) {
+    let n_legacy = rng.weighted(&[3, 4, 3]);
+    let cfg = Cfg::gen_cfg(rng, enc, n_legacy > 0);
+    let rec = RecStore::new();
+    rec.set_record_reads(false);
+    let mut serial = 0u32;
+    let mut model: Model = vec![None; KEYS.len()];
+    let mut legacy = vec![false; KEYS.len()];
+
+    // seeding (harness writes, not crash points): legacy objects + stale generations
+    let mut order: Vec<usize> = (0..KEYS.len()).collect();
+    rng.shuffle(&mut order);
+    for &k in order.iter().take(n_legacy) {
+        let v = gen_value(rng, &cfg, &mut serial);
+        seed_legacy(&cfg, &rec, KEYS[k], &v, rng).await;
+        model[k] = Some(v);
+        legacy[k] = true;
+        st.count("legacy_keys_seeded");
+    }
+    for k in 0..KEYS.len() {
+        if rng.chance(1, 3) {
+            plant_stale_generation(&rec, KEYS[k], rng).await;
+            st.count("stale_generations_planted");
+        }
+    }
+    if rng.chance(1, 4) {
+        // orphaned legacy payload without a commit point
+        rec.put(&Path::from("data/orphan"), PutPayload::from(rng.bytes(5))).await.expect("orphan");
+    }
+    let seed_end = rec.landed() as usize;
+
+    // clean run
+    let w = Wrap::new(&cfg, rec.as_dyn());
+    let mut ops: Vec<OpRec> = vec![];
+    for _ in 0..n_ops {
+        let op = gen_op(rng, &cfg, &model, &mut serial);
+        let before = model.clone();
+        let expect = model_apply(&mut model, &op);
+        let touched_legacy = |k: usize| legacy[k];
+        let legacy_migration = expect == "ok"
+            && match &op {
+                Op::Put { key, .. } | Op::Multipart { key, .. } | Op::Delete { key } => touched_legacy(*key),
+                Op::Copy { to, .. } => touched_legacy(*to),
+                Op::Rename { from, to, .. } => from != to && (touched_legacy(*to) || touched_legacy(*from)),
+                Op::Gc => false,
+            };
+        if matches!(op, Op::Gc) {
+            // make the garbage written so far eligible (precondition of the scenario)
+            if !wait_past(unix_ms()) {
+                st.inconclusive("wall clock did not advance (GC eligibility precondition)");
+                return;
+            }
+        }
+        let lo = rec.landed() as usize;
+        rec.marker("op_start", ops.len() as u64);
+        let (result, gc_n) = apply_op(&w, &rec, &op).await;
+        rec.marker("op_end", ops.len() as u64);
+        let hi = rec.landed() as usize;
+        st.count(&format!("op:{}", op.kind()));
+        if let Op::Put { fault, .. } = &op {
+            match fault {
+                PutFault::FailCommit if result == "Generic" => st.count("op:put_failed_at_pointer_switch"),
+                PutFault::LeakOld if result == "ok" => st.count("op:put_with_failed_reclaim"),
+                _ => {}
+            }
+        }
+        if let Some(n) = gc_n {
+            st.count("gc_in_sequence_runs");
+            if n > 0 {
+                st.count("gc_in_sequence_deleted_gt0");
+            }
+        }
+        if result != expect {
+            // a clean run that does not follow the sequential reference semantics is C07's
+            // subject; the crash analysis of this sequence would not be sound
+            st.inconclusive(format!(
+                "clean run diverged from the reference semantics: {} returned {result}, expected {expect} ({})",
+                op.describe(),
+                cfg.name()
+            ));
+            return;
+        }
+        if expect == "ok" {
+            match &op {
+                Op::Put { key, .. } | Op::Multipart { key, .. } | Op::Delete { key } => legacy[*key] = false,
+                Op::Copy { to, .. } => legacy[*to] = false,
+                Op::Rename { from, to, .. } if from != to => {
+                    legacy[*to] = false;
+                    legacy[*from] = false;
+                }
+                _ => {}
+            }
+        }
+        ops.push(OpRec { op, lo, hi, before, after: model.clone(), result, legacy_migration });
+    }
+    let landed = rec.landed() as usize;
+    let mutations = rec.mutations();
+    // everything written by the run must be older than the floor of the collections below
+    if !wait_past(unix_ms()) {
+        st.inconclusive("wall clock did not advance (GC eligibility precondition)");
+        return;
+    }
+
+    let ctx = CrashCtx { cfg, case, ops: &ops, mutations: &mutations, seed_end };
+    let initial: Model = ops.first().map(|o| o.before.clone()).unwrap_or_else(|| model.clone());
+    let mut crash_points = 0;
+    for k in seed_end..=landed {
+        // the operation whose mutations are partially applied at k, if any
+        let inflight = ops.iter().position(|o| o.lo < k && k < o.hi);
+        let allowed: Vec<Vec<Option<Vec<u8>>>> = match inflight {
+            Some(i) => (0..KEYS.len())
+                .map(|key| {
+                    let mut a = vec![ops[i].before[key].clone()];
+                    if ops[i].after[key] != ops[i].before[key] {
+                        a.push(ops[i].after[key].clone());
+                    }
+                    a
+                })
+                .collect(),
+            None => {
+                // boundary: the state after the last operation with hi <= k
+                let m = ops.iter().rev().find(|o| o.hi <= k).map(|o| &o.after).unwrap_or(&initial);
+                m.iter().map(|v| vec![v.clone()]).collect()
+            }
+        };
+        match inflight {
+            Some(i) => {
+                st.count(&format!("crash_inflight:{}", ops[i].op.kind()));
+                if ops[i].legacy_migration {
+                    st.count("crash_inflight:legacy_migration");
+                }
+                if let Op::Put { fault, .. } = &ops[i].op {
+                    if *fault != PutFault::None {
+                        st.count("crash_inflight:put_with_backend_fault");
+                    }
+                }
+            }
+            None => st.count("crash_at_operation_boundary"),
+        }
+        let inner = rec.materialize(k).await;
+        crash_points += 1;
+        if !check_crash_state(&ctx, k, inner, &allowed, inflight, st).await {
+            return; // one violating sequence is reported once
+        }
+    }
+    let kinds: BTreeSet<&str> = ops.iter().map(|o| o.op.kind()).collect();
+    if kinds.len() >= 5 && crash_points >= 20 {
+        let shape: Vec<String> = ops.iter().map(|o| o.op.describe()).collect();
+        st.distinct(vcore::fnv_str(&format!("{}|{}|{}", cfg.name(), cfg.chunk, shape.join(";"))));
+    }
+    st.max("max_crash_points_per_sequence", crash_points as u64);
+    st.sample(|| {
+        json!({"monitor": "crash_enumeration", "wrapper": cfg.name(), "chunk_size": cfg.chunk,
+               "legacy_keys": n_legacy, "crash_points": crash_points,
+               "operations": ops.iter().take(14).map(|o| format!("[{}..{}] {} -> {}", o.lo, o.hi, o.op.describe(), o.result)).collect::<Vec<_>>()})
+    });
+}
+
+// ---------------------------------------------------------------------------------------------
+// monitor 2: collect_garbage interleaved with parked in-process writers
+
+const GKEYS: [&str; 3] = ["x", "y/z", "w"];
+
+#[derive(Clone, Debug)]
+enum WOp {
+    Put { key: usize, data: Vec<u8> },
+    Multipart { key: usize, parts: Vec<Vec<u8>> },
+    Copy { from: usize, to: usize },
+    Rename { from: usize, to: usize },
+    Delete { key: usize },
+}
+
+impl WOp {
+    fn kind(&self) -> &'static str {
+        match self {
+            WOp::Put { .. } => "put",
+            WOp::Multipart { .. } => "multipart",
+            WOp::Copy { .. } => "copy",
+            WOp::Rename { .. } => "rename",
+            WOp::Delete { .. } => "delete",
+        }
+    }
+    fn describe(&self) -> String {
+        match self {
+            WOp::Put { key, data } => format!("put {} {}", GKEYS[*key], show(&Some(data.clone()))),
+            WOp::Multipart { key, parts } => {
+                format!("multipart {} {}", GKEYS[*key], show(&Some(parts.concat())))
+            }
+            WOp::Copy { from, to } => format!("copy {} -> {}", GKEYS[*from], GKEYS[*to]),
+            WOp::Rename { from, to } => format!("rename {} -> {}", GKEYS[*from], GKEYS[*to]),
+            WOp::Delete { key } => format!("delete {}", GKEYS[*key]),
+        }
+    }
+}
+
+#[derive(Clone, Copy, Debug, PartialEq)]
+enum Park {
+    /// poll until the payload write landed: parked right before the pointer switch
+    AfterPayload,
+    Steps(u32),
+    NotStarted,
+}
+
+#[derive(Clone, Debug)]
+struct Scenario {
+    cfg: Cfg,
+    init: Model,
+    legacy: Vec<bool>,
+    /// keys that get a planted stale generation
+    planted: Vec<usize>,
+    /// keys rewritten once with a failing reclaim delete (real stale generation)
+    leak_old: Vec<(usize, Vec<u8>)>,
+    orphan_data: bool,
+    writers: Vec<(WOp, Park)>,
+    seed: u64,
+}
+
+fn gen_scenario(rng: &mut Rng, small: bool) -> Scenario {
+    let enc = rng.bool();
+    let mut serial = 0u32;
+    let n_keys = GKEYS.len();
+    let mut legacy = vec![false; n_keys];
+    let mut init: Model = vec![None; n_keys];
+    let any_legacy = rng.chance(1, 3);
+    let cfg = Cfg::gen_cfg(rng, enc, any_legacy);
+    for k in 0..n_keys {
+        if rng.chance(3, 4) {
+            init[k] = Some(gen_value(rng, &cfg, &mut serial));
+            legacy[k] = any_legacy && rng.chance(1, 2);
+        }
+    }
+    let mut planted = vec![];
+    let mut leak_old = vec![];
+    for k in 0..n_keys {
+        if rng.chance(if small { 1 } else { 2 }, 3) {
+            planted.push(k);
+        }
+        if init[k].is_some() && !legacy[k] && rng.chance(1, 3) {
+            let v = gen_value(rng, &cfg, &mut serial);
+            leak_old.push((k, v));
+        }
+    }
+    if planted.is_empty() && leak_old.is_empty() {
+        planted.push(rng.usize(n_keys));
+    }
+    let present: Vec<usize> = (0..n_keys).filter(|k| init[*k].is_some()).collect();
+    let n_writers = if small { 1 } else { 1 + rng.usize(2) };
+    let mut writers = vec![];
+    for _ in 0..n_writers {
+        let src = if !present.is_empty() && rng.chance(9, 10) { *rng.pick(&present) } else { rng.usize(n_keys) };
+        let op = match rng.weighted(&[34, 16, 22, 16, 12]) {
+            0 => WOp::Put { key: rng.usize(n_keys), data: gen_value(rng, &cfg, &mut serial) },
+            1 => {
+                let d = gen_value(rng, &cfg, &mut serial);
+                WOp::Multipart { key: rng.usize(n_keys), parts: split_parts(rng, &d) }
+            }
+            2 => WOp::Copy { from: src, to: rng.usize(n_keys) },
+            3 => WOp::Rename { from: src, to: rng.usize(n_keys) },
+            _ => WOp::Delete { key: src },
+        };
+        let park = if small {
+            Park::AfterPayload
+        } else {
+            match rng.weighted(&[70, 20, 10]) {
+                0 => Park::AfterPayload,
+                1 => Park::Steps(rng.below(5) as u32),
+                _ => Park::NotStarted,
+            }
+        };
+        writers.push((op, park));
+    }
+    Scenario {
+        cfg,
+        init,
+        legacy,
+        planted,
+        leak_old,
+        orphan_data: rng.chance(1, 4),
+        writers,
+        seed: rng.next_u64(),
+    }
+}
+
+enum Out {
+    Writer(Result<(), String>),
+    Gc(Result<usize, String>),
+}
+
+async fn run_wop(w: Wrap, op: WOp) -> Out {
+    let r = match &op {
+        WOp::Put { key, data } => w.os.put(&Path::from(GKEYS[*key]), PutPayload::from(data.clone())).await.map(|_| ()),
+        WOp::Multipart { key, parts } => do_multipart(w.os.as_ref(), &Path::from(GKEYS[*key]), parts).await,
+        WOp::Copy { from, to } => w.os.copy(&Path::from(GKEYS[*from]), &Path::from(GKEYS[*to])).await,
+        WOp::Rename { from, to } => w.os.rename(&Path::from(GKEYS[*from]), &Path::from(GKEYS[*to])).await,
+        WOp::Delete { key } => w.os.delete(&Path::from(GKEYS[*key])).await,
+    };
+    Out::Writer(r.map_err(|e| err_name(&e).to_string()))
+}
+
+/// (task, mutation) for every landed mutation, in backend order.
+fn mutations_by_task(rec: &RecStore) -> Vec<(u32, Mutation)> {
+    let muts = rec.mutations();
+    let mut out = vec![];
+    for it in rec.log_items() {
+        if let LogItem::Backend(ev) = it {
+            if let Some(i) = ev.mutation {
+                out.push((ev.task, muts[i].clone()));
+            }
+        }
+    }
+    out
+}
+
+/// What `key` may hold once everything completed, given which task switched (or removed) its
+/// commit point last.
+fn expected_final(sc: &Scenario, key: usize, last: Option<(u32, bool)>) -> Vec<Option<Vec<u8>>> {
+    let n_w = sc.writers.len() as u32;
+    let Some((task, is_put)) = last else {
+        return vec![sc.init[key].clone()];
+    };
+    if task == 0 || task > n_w {
+        // seeding, or the collector touched a commit point (never legal)
+        return vec![];
+    }
+    if !is_put {
+        return vec![None];
+    }
+    // values a copy source may have held while the copier ran
+    let source_values = |from: usize, me: u32| -> Vec<Option<Vec<u8>>> {
+        let mut v = vec![sc.init[from].clone()];
+        for (j, (o, _)) in sc.writers.iter().enumerate() {
+            if j as u32 + 1 == me {
+                continue;
+            }
+            match o {
+                WOp::Put { key, data } if *key == from => v.push(Some(data.clone())),
+                WOp::Multipart { key, parts } if *key == from => v.push(Some(parts.concat())),
+                WOp::Copy { from: f2, to } | WOp::Rename { from: f2, to } if *to == from => {
+                    v.push(sc.init[*f2].clone());
+                    // ... or what this copier itself wrote to that source earlier: not possible,
+                    // a copier reads its source before it writes its target
+                }
+                _ => {}
+            }
+        }
+        v.retain(|x| x.is_some());
+        v
+    };
+    match &sc.writers[task as usize - 1].0 {
+        WOp::Put { data, .. } => vec![Some(data.clone())],
+        WOp::Multipart { parts, .. } => vec![Some(parts.concat())],
+        WOp::Copy { from, .. } | WOp::Rename { from, .. } => source_values(*from, task),
+        WOp::Delete { .. } => vec![],
+    }
+}
+
+struct GcRunInfo {
+    trace: Vec<usize>,
+}
+
+async fn gc_run(sc: &Scenario, chooser: &mut dyn Chooser, mode: &str, st: &mut Stats) -> Option<GcRunInfo> {
+    let cfg = sc.cfg;
+    let wn = cfg.name();
+    let mut rng = Rng::new(sc.seed);
+    let rec = RecStore::new();
+    rec.set_record_reads(false);
+    let w = Wrap::new(&cfg, rec.as_dyn());
+    // --- setup (ungated, task 0)
+    let mut init = sc.init.clone();
+    for k in 0..GKEYS.len() {
+        if let Some(v) = &sc.init[k] {
+            if sc.legacy[k] {
+                seed_legacy(&cfg, &rec, GKEYS[k], v, &mut rng).await;
+            } else {
+                w.os.put(&Path::from(GKEYS[k]), PutPayload::from(v.clone())).await.expect("seed put");
+            }
+        }
+    }
+    for (k, v) in &sc.leak_old {
+        rec.set_fault(Fault::FailBefore(rec.attempts() + 2));
+        let r = w.os.put(&Path::from(GKEYS[*k]), PutPayload::from(v.clone())).await;
+        rec.reset_faults();
+        if r.is_err() {
+            st.inconclusive("GC scenario setup: overwrite with failing reclaim returned an error");
+            return None;
+        }
+        init[*k] = Some(v.clone());
+    }
+    for k in &sc.planted {
+        plant_stale_generation(&rec, GKEYS[*k], &mut rng).await;
+    }
+    if sc.orphan_data {
+        rec.put(&Path::from("data/orphan"), PutPayload::from(rng.bytes(4))).await.expect("orphan");
+    }
+    let sc_eff = Scenario { init: init.clone(), ..sc.clone() };
+    let setup_end = rec.landed() as usize;
+    let ctx = |extra: serde_json::Value, ex: &ManualExec<'_, Out>, rec: &RecStore| {
+        json!({
+            "monitor": "gc_interleaving", "mode": mode, "wrapper": wn, "chunk_size": cfg.chunk,
+            "initial": init.iter().enumerate().map(|(k, v)| format!("{}={}{}", GKEYS[k], show(v), if sc.legacy[k] { " (legacy layout)" } else { "" })).collect::<Vec<_>>(),
+            "writers": sc.writers.iter().map(|(o, p)| format!("{} [{p:?}]", o.describe())).collect::<Vec<_>>(),
+            "collector_task": sc.writers.len() + 1,
+            "poll_trace(task index per step)": ex.trace,
+            "backend_mutations(task:mutation)": mutations_by_task(rec).iter().skip(setup_end).map(|(t, m)| format!("t{t}: {}", m.describe())).collect::<Vec<_>>(),
+            "what": extra,
+        })
+    };
+
+    // --- phase 1: park the writers
+    rec.set_gate(true);
+    let mut ex: ManualExec<'_, Out> = ManualExec::new();
+    for (op, _) in &sc.writers {
+        ex.spawn(run_wop(w.clone(), op.clone()));
+    }
+    let mut parked_payload: Vec<Option<String>> = vec![None; sc.writers.len()];
+    for (i, (_, park)) in sc.writers.iter().enumerate() {
+        let max_polls = match park {
+            Park::AfterPayload => 64,
+            Park::Steps(n) => *n,
+            Park::NotStarted => 0,
+        };
+        for _ in 0..max_polls {
+            if ex.is_done(i) || !ex.enabled().contains(&i) {
+                break;
+            }
+            let mark = rec.mark();
+            ex.poll(i);
+            let landed = rec.mutations_since(mark, Some("gen/"));
+            if let Some(m) = landed.iter().rev().find(|m| matches!(m, Mutation::Put { .. } | Mutation::Copy { .. })) {
+                parked_payload[i] = Some(m.path().to_string());
+                if *park == Park::AfterPayload {
+                    break;
+                }
+            }
+        }
+        if parked_payload[i].is_some() && !ex.is_done(i) {
+            st.count("writers_parked_between_payload_and_pointer");
+            st.count(&format!("parked:{}", sc.writers[i].0.kind()));
+        }
+    }
+    // precondition: every generation written so far is older than the collector's floor
+    let newest = rec
+        .mutations()
+        .iter()
+        .filter_map(|m| generation_ts(m.path().as_ref()))
+        .filter(|ts| *ts <= unix_ms())
+        .max()
+        .unwrap_or(0);
+    if !wait_past(newest.max(unix_ms())) {
+        st.inconclusive("wall clock did not advance (GC eligibility precondition)");
+        return None;
+    }
+    st.count("oracle_pointer_resolves");
+    let q1 = inspect(rec.inner().as_ref()).await;
+    if !q1.dangling.is_empty() {
+        st.violation(
+            format!("C08/{wn}/gc/commit_point_without_payload"),
+            ctx(json!({"at": "writers parked, collector not started", "dangling": q1.dangling}), &ex, &rec),
+        );
+        return None;
+    }
+
+    // --- phase 2: the collector against the parked writers
+    let g = ex.spawn({
+        let w = w.clone();
+        async move { Out::Gc(w.collect_garbage().await.map_err(|e| format!("{e}"))) }
+    });
+    let mut steps = 0usize;
+    let mut gc_result: Option<Result<usize, String>> = None;
+    loop {
+        if ex.all_done() {
+            break;
+        }
+        let en = ex.enabled();
+        if en.is_empty() {
+            st.violation(
+                format!("C08/{wn}/gc/deadlock"),
+                ctx(json!({"unfinished_tasks": ex.unfinished()}), &ex, &rec),
+            );
+            return None;
+        }
+        steps += 1;
+        if steps > 20_000 {
+            st.inconclusive("GC interleaving: step cap reached");
+            return None;
+        }
+        // choice 0 = the highest task index = the collector while it runs: the first DFS run lets
+        // the collector finish against the parked writers, backtracking then moves writer steps
+        // earlier one at a time
+        let c = if en.len() == 1 { 0 } else { chooser.choose(en.len()).min(en.len() - 1) };
+        let i = en[en.len() - 1 - c];
+        let done = ex.poll(i);
+        if done && i == g {
+            if let Some(Out::Gc(r)) = ex.take_result(g) {
+                gc_result = Some(r);
+            }
+            // quiescent point of the collector: nothing it removed may be referenced, and the
+            // payloads of still-parked writers must have been spared
+            st.count("oracle_pointer_resolves");
+            let q = inspect(rec.inner().as_ref()).await;
+            if !q.dangling.is_empty() {
+                st.violation(
+                    format!("C08/{wn}/gc/removed_referenced_payload"),
+                    ctx(json!({"at": "collector finished", "dangling": q.dangling, "gc_result": format!("{gc_result:?}")}), &ex, &rec),
+                );
+                return None;
+            }
+            let by_task = mutations_by_task(&rec);
+            for (wi, p) in parked_payload.iter().enumerate() {
+                let Some(p) = p else { continue };
+                if ex.is_done(wi) {
+                    continue;
+                }
+                let committed = by_task
+                    .iter()
+                    .any(|(t, m)| *t == wi as u32 + 1 && m.path().as_ref().starts_with("meta/"));
+                if committed {
+                    continue;
+                }
+                st.count("oracle_inflight_payload_spared");
+                if rec.inner().head(&Path::from(p.as_str())).await.is_err() {
+                    st.violation(
+                        format!("C08/{wn}/gc/removed_in_flight_payload"),
+                        ctx(json!({"payload": p, "writer": sc.writers[wi].0.describe(),
+                                   "note": "payload written, pointer switch pending, collector deleted it"}), &ex, &rec),
+                    );
+                    return None;
+                }
+            }
+        }
+    }
+    rec.set_gate(false);
+    st.count("gc_interleavings_explored");
+    st.eval();
+    match &gc_result {
+        Some(Ok(n)) => {
+            if *n > 0 {
+                st.count("gc_concurrent_runs_deleted_gt0");
+                st.add("gc_concurrent_objects_deleted", *n as u64);
+            }
+        }
+        Some(Err(e)) => {
+            st.violation(format!("C08/{wn}/gc/collect_garbage_failed"), ctx(json!({"error": e}), &ex, &rec));
+            return None;
+        }
+        None => {
+            st.inconclusive("GC interleaving: collector result missing");
+            return None;
+        }
+    }
+    for i in 0..sc.writers.len() {
+        match ex.take_result(i) {
+            Some(Out::Writer(Ok(()))) => st.count("writer_ok"),
+            Some(Out::Writer(Err(e))) => st.count(&format!("writer_err:{e}")),
+            _ => {}
+        }
+    }
+
+    // --- final state: every key reads what its last committed operation wrote
+    let by_task = mutations_by_task(&rec);
+    let cold = Wrap::new(&cfg, rec.inner());
+    let mut finals = vec![];
+    for (k, key) in GKEYS.iter().enumerate() {
+        let meta_path = format!("meta/{key}");
+        let last = by_task.iter().skip(setup_end).rev().find_map(|(t, m)| match m {
+            Mutation::Put { path, .. } if path.as_ref() == meta_path => Some((*t, true)),
+            Mutation::Delete { path, effective: true } if path.as_ref() == meta_path => Some((*t, false)),
+            _ => None,
+        });
+        let allowed = expected_final(&sc_eff, k, last);
+        let warm = view_key(w.os.as_ref(), key).await.read;
+        let fresh = view_key(cold.os.as_ref(), key).await.read;
+        st.count("oracle_final_value");
+        for (which, r) in [("same instance", &warm), ("fresh instance", &fresh)] {
+            let okv = r.as_model().map(|m| allowed.contains(&m)).unwrap_or(false);
+            if !okv {
+                st.violation(
+                    format!("C08/{wn}/gc/final_value_wrong"),
+                    ctx(json!({"key": key, "read_by": which, "read": r.show(),
+                               "allowed": allowed.iter().map(show).collect::<Vec<_>>(),
+                               "last_commit_by_task": last.map(|l| l.0)}), &ex, &rec),
+                );
+                return None;
+            }
+        }
+        finals.push(fresh);
+    }
+    st.count("oracle_pointer_resolves");
+    let q3 = inspect(rec.inner().as_ref()).await;
+    if !q3.dangling.is_empty() {
+        st.violation(
+            format!("C08/{wn}/gc/removed_referenced_payload"),
+            ctx(json!({"at": "all tasks finished", "dangling": q3.dangling}), &ex, &rec),
+        );
+        return None;
+    }
+
+    // --- a quiescent collection afterwards: same bytes, convergence, nothing left behind
+    if !wait_past(unix_ms()) {
+        st.inconclusive("wall clock did not advance (GC eligibility precondition)");
+        return None;
+    }
+    let n1 = match w.collect_garbage().await {
+        Ok(n) => n,
+        Err(e) => {
+            st.violation(format!("C08/{wn}/gc/collect_garbage_failed"), ctx(json!({"error": format!("{e}"), "run": "final"}), &ex, &rec));
+            return None;
+        }
+    };
+    if n1 > 0 {
+        st.count("gc_final_runs_deleted_gt0");
+    }
+    let colder = Wrap::new(&cfg, rec.inner());
+    let mut live = 0;
+    for (k, key) in GKEYS.iter().enumerate() {
+        let r = view_key(colder.os.as_ref(), key).await.read;
+        st.count("oracle_same_bytes_after_gc");
+        if r != finals[k] {
+            st.violation(
+                format!("C08/{wn}/gc/gc_changed_readable_bytes"),
+                ctx(json!({"key": key, "before": finals[k].show(), "after": r.show(), "gc_deleted": n1}), &ex, &rec),
+            );
+            return None;
+        }
+        if matches!(r, Read::Bytes(_)) {
+            live += 1;
+        }
+    }
+    st.count("oracle_gc_converges");
+    match w.collect_garbage().await {
+        Ok(0) => {}
+        other => {
+            st.violation(
+                format!("C08/{wn}/gc/gc_not_convergent"),
+                ctx(json!({"first_run_deleted": n1, "second_run": format!("{other:?}")}), &ex, &rec),
+            );
+            return None;
+        }
+    }
+    let q4 = inspect(rec.inner().as_ref()).await;
+    st.count("oracle_no_leak_after_gc");
+    if !q4.dangling.is_empty() || q4.payload_objects != live || q4.meta_docs != live {
+        st.violation(
+            format!("C08/{wn}/gc/gc_leaves_unreferenced_payloads"),
+            ctx(json!({"payload_objects": q4.payload_objects, "commit_points": q4.meta_docs, "live_keys": live,
+                       "dangling": q4.dangling}), &ex, &rec),
+        );
+        return None;
+    }
+    Some(GcRunInfo { trace: ex.trace.clone() })
+}
+
+/// Picks alternative 0 (the collector, see `gc_run`) with the given probability, else uniformly.
+struct Biased {
+    rng: Rng,
+    first_per_mille: u64,
+}
+
+impl Chooser for Biased {
+    fn choose(&mut self, n: usize) -> usize {
+        if self.rng.below(1000) < self.first_per_mille { 0 } else { self.rng.usize(n) }
+    }
+}
+
+fn gc_case(case: u64, rng: &mut Rng, st: &mut Stats, dfs_budget: u64, rand_runs: u64, small: bool, two: bool) {
+    let mut sc = gen_scenario(rng, small);
+    if two {
+        // a second parked writer for the DFS over 2-writer configurations
+        let extra = gen_scenario(rng, true);
+        sc.writers.push(extra.writers[0].clone());
+    }
+    let salt = case.wrapping_mul(0x9e3779b97f4a7c15);
+    let mut runs = 0u64;
+    let mut exhausted = false;
+    if dfs_budget > 0 {
+        let mut dfs = DfsChooser::new();
+        loop {
+            dfs.begin_run();
+            let info = block_on(gc_run(&sc, &mut dfs, "DFS", st));
+            runs += 1;
+            let Some(info) = info else { return };
+            st.set("gc_distinct_interleavings", vcore::hash_debug(&info.trace) ^ salt);
+            st.max("max_gc_schedule_len", info.trace.len() as u64);
+            if !dfs.next_run() {
+                exhausted = true;
+                break;
+            }
+            if runs >= dfs_budget {
+                break;
+            }
+        }
+        st.count(if exhausted { "gc_schedule_spaces_exhausted" } else { "gc_schedule_spaces_truncated" });
+    }
+    if !exhausted {
+        for r in 0..rand_runs {
+            // collector-first, collector-biased and uniform random schedules in turn
+            let mut rc = Biased { rng: rng.fork(), first_per_mille: [1000, 800, 0][(r % 3) as usize] };
+            let info = block_on(gc_run(&sc, &mut rc, "random", st));
+            runs += 1;
+            let Some(info) = info else { return };
+            st.set("gc_distinct_interleavings", vcore::hash_debug(&info.trace) ^ salt);
+            st.max("max_gc_schedule_len", info.trace.len() as u64);
+        }
+    }
+    for (o, _) in &sc.writers {
+        st.count(&format!("gc_vs:{}", o.kind()));
+    }
+    st.count(&format!("gc_scenarios:{}", sc.cfg.name()));
+    st.distinct(vcore::hash_debug(&(&sc.writers, &sc.init, sc.cfg.enc, &sc.planted)));
+    st.sample(|| {
+        json!({"monitor": "gc_interleaving", "wrapper": sc.cfg.name(),
+               "writers": sc.writers.iter().map(|(o, p)| format!("{} [{p:?}]", o.describe())).collect::<Vec<_>>(),
+               "stale_generations_planted": sc.planted.len(), "real_stale_generations": sc.leak_old.len(),
+               "schedules": runs, "exhaustive": exhausted})
+    });
+}
+
+// ---------------------------------------------------------------------------------------------
+
 fn main() {
-    println!("INCONCLUSIVE property=C08 monitor not built yet");
-    std::process::exit(2);
+    let mut run = Run::from_args(
+        "C08",
+        "fault_enumeration",
+        "operation sequences over 4 keys (2 wrappers, chunk sizes 1..256K, 0-2 keys in the legacy \
+         layout); a sequence is non-trivial when it uses >= 5 operation kinds and has >= 20 crash \
+         points (distinct by wrapper, chunk size and operation list); GC scenarios are distinct by \
+         (writers, initial state, wrapper), interleavings by poll trace",
+    );
+    run.assume("crash model: each inner-store mutation is atomic, the sequence is interruptible after any of them (the crate's own model)");
+    run.assume("GC eligibility is established on purpose: the wall clock is advanced >= 2 ms past every generation before a collection whose effect is judged (scenario precondition, never a verdict)");
+    run.assume("single-writer contract: all writers and the collector of one scenario share one wrapper instance (one process)");
+    run.assume("legacy EncryptedStore objects are the pre-auth layout (data/<key>, no seal); the sealed-v1 0.9.x layout is not generated (its AAD would have to be re-implemented in the harness)");
+    let t = run.tier;
+    if run.wants("crash") {
+        run.parallel("crash_meta", t.pick(2000, 40_000), 0.25, |c, rng, st| crash_case(c, rng, st, false, t.pick(12, 16)));
+        run.parallel("crash_enc", t.pick(2000, 40_000), 0.35, |c, rng, st| crash_case(c, rng, st, true, t.pick(12, 16)));
+    }
+    if run.wants("gc") {
+        run.parallel("gc_dfs", t.pick(48, 600), 0.4, |c, rng, st| {
+            gc_case(c, rng, st, t.pick(400, 2500), t.pick(30, 150), true, false)
+        });
+        run.parallel("gc_dfs2", t.pick(16, 300), 0.4, |c, rng, st| {
+            gc_case(c, rng, st, t.pick(300, 3000), t.pick(30, 150), true, true)
+        });
+        run.parallel("gc_rand", t.pick(800, 20_000), 0.9, |c, rng, st| {
+            gc_case(c, rng, st, 0, t.pick(12, 40), false, false)
+        });
+    }
+    run.floor("crash_points", 2000);
+    for k in ["put", "multipart", "copy", "rename", "delete", "gc", "legacy_migration", "put_with_backend_fault"] {
+        run.floor(&format!("crash_inflight:{k}"), 20);
+    }
+    run.floor("inflight_read_old", 50);
+    run.floor("inflight_read_new", 50);
+    run.floor("gc_after_crash_deleted_gt0", 100);
+    run.floor("gc_in_sequence_deleted_gt0", 10);
+    run.floor("rename_crash_both_present", 5);
+    run.floor("gc_interleavings_explored", 500);
+    run.floor_set("gc_distinct_interleavings", 200);
+    run.floor("gc_schedule_spaces_exhausted", 3);
+    run.floor("writers_parked_between_payload_and_pointer", 200);
+    run.floor("oracle_inflight_payload_spared", 100);
+    run.floor("gc_concurrent_runs_deleted_gt0", 100);
+    for k in ["put", "multipart", "copy", "rename"] {
+        run.floor(&format!("parked:{k}"), 5);
+    }
+    run.floor("gc_scenarios:meta", 10);
+    run.floor("gc_scenarios:enc", 10);
+    run.finish();
 }
